@@ -74,7 +74,9 @@ CHECKS = {
          "consecutively; any accepted input is consumed as a prefix and is suffix-independent (TruncProofs.decA_stable).",
          "6 C07", "Cross-version (evolved reader/writer) self-delimitation is part of C03. " + TB),
  "C08": ("Theorems: every strict prefix of every encoding is an error on layers A and B; more generally cutting "
-         "inside what any successful decode consumed yields an error. Tie: every cut of generated encodings.",
+         "inside what any successful decode consumed yields an error; C08_cross_version: prefixes of version-kw data are "
+         "rejected by the version-kr reader of a legal history whenever the pair is framed. Tie: every cut of generated "
+         "encodings under the writing definition, and of evolved records under older and newer definitions.",
          "6 C08", TB),
  "C09": ("Theorems: the general round trip threads the string table through every codec (DeduplicatedString is a "
          "primitive of the type language; evolved records register header names when opened), so any arrangement of "
